@@ -51,6 +51,14 @@ def main(args):
             shutil.rmtree(scratch, ignore_errors=True)
     out = os.path.join(core.VERIF, "evidence", "selftest_sensitivity.json")
     os.makedirs(os.path.dirname(out), exist_ok=True)
+    if only and os.path.exists(out):
+        # a partial re-run refreshes its entries and keeps the others
+        try:
+            merged = json.load(open(out))
+        except Exception:
+            merged = {}
+        merged.update(results)
+        results = merged
     with open(out, "w") as f:
         json.dump(results, f, indent=1, sort_keys=True)
     return 2 if bad else 0
